@@ -422,7 +422,7 @@ def fp_sweep(vlib, impl, tier, notes):
                                     judge="FAIL", why="float text sweep: " + why + " (%s of %s patterns in %s)" % (f[2], f[1], l)))
         else:
             failing.append(dict(driver="num", case=l, implementation=o, model="FPSWEEP n 0 -", judge="FAIL", why="float sweep did not complete"))
-    notes.append("float text sweep: %d bit patterns checked in-driver (round trip bit-identical, glibc strtof/strtod agrees, no shorter digit string), %d bad" % (total, bad))
+    notes.append("float text sweep: %d bit patterns checked in-driver (round trip bit-identical, glibc strtof/strtod reads the same value, no round-tripping decimal can be written with fewer characters), %d bad" % (total, bad))
     return total, failing
 
 
